@@ -295,6 +295,7 @@ def deductive(rep: Report, tier):
                 run_case(rep, P, S + fn, f"n{n}_rhs{k}", setup_d, post_d, lib=Library("idx"), clauses=["returns", "T_X_eq_B_up_to_1e-30_regularisation"],
                          scope=f"shape-bounded(n={n}, right-hand sides={k}; all entries)", replay=replay_solves, timeout_s=60, site_obligations=False, algebra=True)
     dense_substitution_all_n(rep)
+    utriangle_all_n(rep)
     # regularisation size: 1 - theta <= 1e-30 / |t|^2
     d = z3.Real("d")
     v = smt.prove([d > 0], 1 - d / (d + z3.RealVal("1/1000000000000000000000000000000")) <= z3.RealVal("1/1000000000000000000000000000000") / d, 10)
@@ -457,6 +458,142 @@ def dense_substitution_all_n(rep: Report):
         run_case(rep, P, QN, "all_n", setup, post, lib=Library("idx"),
                  loop_rules={(QN, 0): Outer(), (QN, 1): Inner(), (QN, 2): Cols()},
                  clauses=["returns_array", "shape", "every_row_satisfies_the_substitution_recurrence"], replay=replay_solves, timeout_s=60)
+
+
+def utriangle_all_n(rep: Report):
+    """UtriangleQsparse (component-form back substitution used by Q-GMRES) for ALL n and ALL numbers of right-hand sides.
+    Ghost functions:  XF(r, c)  the value row r of the solution receives;  SB(i, c) = (R[i, i+1:n] * X[i+1:n, :])[c]  - the
+    kernel product of the row tail with the already solved block (named at the call after checking that the arguments are
+    exactly that row tail and that block; the kernel itself is C01's Hamilton product).
+      loop invariant (descending i): rows > i of b hold XF, rows <= i still hold the right-hand side B (in-place frame)
+      per row with |r_ii| > tol:      X[i, c] == conj(r_ii)/(|r_ii|^2 + tiny) * (B[i, c] - SB(i, c))          (also row n-1, SB = 0)
+      per row with |r_ii| <= tol:     X[i, :] == 0   (the documented least-squares fallback)"""
+    from ..interp import LoopRule
+    from ..rules import _set_whole
+    from ..sym import is_reallike
+    QN = U + "UtriangleQsparse"
+    I_ = z3.IntSort()
+    XF = [z3.Function(f"XFu{c}", I_, I_, z3.RealSort()) for c in range(4)]
+    SB = [z3.Function(f"SBu{c}", I_, I_, z3.RealSort()) for c in range(4)]
+    zi = SInt.lift
+
+    def q(fs, *a):
+        return ix.QScal(*[SReal.mk(f(*[zi(x) for x in a])) for f in fs])
+
+    def qat(arrs, *idx):
+        return ix.QScal(*[a.at(*idx) for a in arrs])
+
+    def dinvq(R, i, tiny):
+        d = qat(R, i, i)
+        den = d.norm2() + tiny
+        return ix.QScal(d.c[0] / den, -d.c[1] / den, -d.c[2] / den, -d.c[3] / den)
+
+    def k_times(I, args, kwargs):
+        B, C = args[:4], args[4:8]
+        c = cur()
+        g = c.ghost
+        if all(is_reallike(x) for x in B) and all(isinstance(x, ix.IArr) for x in C):
+            # quaternion scalar times a row from the left: entrywise Hamilton product (scalar path of the kernel, C01)
+            h = ix.QScal(*B)
+            snaps = [x._snapshot() for x in C]
+            return tuple(ix.IArr.from_fn(list(C[0].vshape), lambda vi, cc=cc: (h * ix.QScal(*[s_(tuple(vi)) for s_ in snaps])).c[cc]) for cc in range(4))
+        if all(isinstance(x, ix.IArr) for x in B + C) and len(B[0].vshape) == 1 and len(C[0].vshape) == 2:
+            i, n, R = g["row_i"], g["n"], g["R"]
+            L, kk = C[0].vshape
+            t, col = ix.fresh_indices(c, [L, kk], "t")
+            ok = sand(SBool.mk(zi(B[0].vshape[0]) == zi(L)), SBool.mk(zi(L) == zi(n - i - 1)),
+                      *[SBool.mk(SReal.lift(B[cc].at(t)) == SReal.lift(R[cc].at(i, i + 1 + t))) for cc in range(4)],
+                      *[SBool.mk(SReal.lift(C[cc].at(t, col)) == XF[cc](zi(i + 1 + t), zi(col))) for cc in range(4)])
+            c.require("contract.pre", ok, "the kernel is applied to the row tail R[i, i+1:n] and the solved block X[i+1:n, :]", key="utriangle.kernel.row_tail_times_solved_block")
+            g["kernel_called"] = True
+            return tuple(ix.IArr.from_fn([kk], lambda vi, cc=cc: SReal.mk(SB[cc](zi(i), zi(vi[0])))) for cc in range(4))
+        raise ix.OutOfReach("kernel call pattern outside the back substitution")
+
+    class Rows(LoopRule):
+        modifies = ("b0", "b1", "b2", "b3")
+        nonsingular = False
+
+        def closed(self, fr, i):
+            B = cur().ghost["B"]
+            return [(lambda vi, cc=cc: ix.ite(vi[0] > i, SReal.mk(XF[cc](zi(vi[0]), zi(vi[1]))), B[cc].at(vi[0], vi[1]))) for cc in range(4)]
+
+        def named_check(self, fr, row, i_next, phase):
+            """Name XF(row, .) after the content of row `row`, then compare the arrays with the closed form at i_next."""
+            c = cur()
+            n, kk = c.ghost["n"], c.ghost["k"]
+            r_, col = ix.fresh_indices(c, [n, kk], "f")
+            for cc in range(4):
+                c.assume(SBool.mk(XF[cc](zi(row), zi(col)) == SReal.lift(fr.vars[f"b{cc}"].at(row, col))))
+            want = self.closed(fr, i_next)
+            for cc in range(4):
+                c.require(f"inv.{phase}", ix.scal_eq(fr.vars[f"b{cc}"].at(r_, col), want[cc]((r_, col))),
+                          "rows below hold XF, rows above still hold the right-hand side", key=f"utriangle.rows.inv.{phase}.b{cc}")
+            return col
+
+        def row_clause(self, fr, row, phase, with_sum):
+            c = cur()
+            g = c.ghost
+            R, B, tiny, tol = g["R"], g["B"], g["tiny"], g["tol"]
+            kk = g["k"]
+            col = ix.fresh_indices(c, [kk], "w")[0]
+            d = qat(R, row, row)
+            big = ssqrt(d.norm2()) > tol
+            have = ix.QScal(*[fr.vars[f"b{cc}"].at(row, col) for cc in range(4)])
+            rhs = qat(B, row, col) - (q(SB, row, col) if with_sum else ix.QScal(Fraction(0)))
+            want = ix.ite(big, dinvq(R, row, tiny) * rhs, ix.QScal(Fraction(0)))
+            c.require(f"row.{phase}", ix.scal_eq(have, want), "row satisfies the substitution recurrence (or is zero when |r_ii| <= tol)", key=f"utriangle.row.{phase}.recurrence")
+
+        def establish(self, it, fr, start):
+            n = cur().ghost["n"]
+            self.row_clause(fr, n - 1, "last", with_sum=False)
+            self.named_check(fr, n - 1, start, "establish")
+
+        def havoc(self, it, fr, i):
+            for cc in range(4):
+                _set_whole(fr.vars[f"b{cc}"], self.closed(fr, i)[cc])
+            g = cur().ghost
+            g["row_i"] = i
+            g.pop("kernel_called", None)
+            if self.nonsingular and g.get("_havoc_kind") == "generic":
+                # instance of the precondition  forall i: |r_ii| > tol  at the row of this iteration
+                cur().assume(ssqrt(qat(g["R"], i, i).norm2()) > g["tol"])
+
+        def preserve(self, it, fr, i):
+            self.row_clause(fr, i, "generic", with_sum=True)
+            self.named_check(fr, i, i - 1, "preserve")
+
+    def setup(I, ctx, nonsingular=False):
+        n, k = dims(ctx, "n", "k")
+        R = [ix.input_array(f"R{c}", [n, n]) for c in range(4)]
+        B = [ix.input_array(f"B{c}", [n, k]) for c in range(4)]
+        b = [x.copy() for x in B]
+        tol = SReal.var("tol")
+        tiny = SReal.var("eps")
+        ctx.assume(sand(tol >= 0, tiny > 0), base=True)          # machine eps / tiny are positive numbers
+        ctx.ghost.update({"R": R, "B": B, "n": n, "k": k, "tol": tol, "tiny": tiny})
+        if nonsingular:
+            ctx.assume(ssqrt(qat(R, n - 1, n - 1).norm2()) > tol)       # instance of the precondition at the last row
+        return R + b, dict(tol=tol), (R, B, b, n, k, nonsingular)
+
+    def post(I, ctx, outcome, val, aux):
+        R, B, b, n, k, nonsingular = aux
+        if outcome != "return":
+            return [("returns_the_overwritten_right_hand_side", False)] + ([("every_row_is_solved", False)] if nonsingular else [])
+        ok = isinstance(val, tuple) and len(val) == 4 and all(v is x for v, x in zip(val, b))
+        out = [("returns_the_overwritten_right_hand_side", ok)]
+        if ok and nonsingular:
+            i0, c0 = ix.fresh_indices(ctx, [n, k], "z")
+            out.append(("every_row_is_solved", sand(*[SBool.mk(SReal.lift(val[cc].at(i0, c0)) == XF[cc](zi(i0), zi(c0))) for cc in range(4)])))
+        return out
+    lib = Library("idx")
+    eps_model(lib)
+    from .c01 import dims
+    for nonsingular in (True, False):
+        rule = Rows()
+        rule.nonsingular = nonsingular
+        run_case(rep, P, QN, "all_n.nonsingular" if nonsingular else "all_n.any_diagonal", lambda I, ctx, ns=nonsingular: setup(I, ctx, ns), post, lib=lib,
+                 contracts={U + "timesQsparse": k_times}, loop_rules={(QN, 0): rule},
+                 clauses=["returns_the_overwritten_right_hand_side"] + (["every_row_is_solved"] if nonsingular else []), replay=replay_solves, timeout_s=60, max_paths=300)
 
 
 def ssqrt_expr(vals):
